@@ -1,11 +1,11 @@
 #!/bin/bash
-# seedtool.sh verify <ID> <X>   : confirm an agent's seeded change in its scratch worktree (/tmp/seed/<ID>) and store it under /verif/seeded/<ID>-<X>/
+# seedtool.sh verify <ID> <X> [<Y>] : (stores as <ID>-<Y>, default Y = X) confirm an agent's seeded change in its scratch worktree (/tmp/seed/<ID>) and store it under /verif/seeded/<ID>-<X>/
 # seedtool.sh run <ID>-<X> [props...] : apply the stored patch to /repo, run ./check for the property (or the given ones), undo
 set -u
 cmd=$1; shift
 case $cmd in
 verify)
-  id=$1; x=$2; wt=/tmp/seed/$id; sd=$wt/seed/$x
+  id=$1; x=$2; y=${3:-$2}; wt=/tmp/seed/$id; sd=$wt/seed/$x
   cd $wt || exit 2
   git checkout -q -- . ; 
   echo "== clean tree demo"; (bash $sd/run.sh >/tmp/seed/$id-$x-clean.log 2>&1); rc_clean=$?
@@ -17,7 +17,7 @@ verify)
   git checkout -q -- .
   echo "clean rc=$rc_clean patched rc=$rc_patched other-test-failures=$fails build-errors=$builderr"
   if [ $rc_clean -eq 0 ] && [ $rc_patched -ne 0 ] && [ $fails -eq 0 ]; then
-    dst=/verif/seeded/$id-$x; mkdir -p $dst; cp -r $sd/. $dst/; rm -rf $dst/out $dst/tmp* 2>/dev/null
+    dst=/verif/seeded/$id-$y; mkdir -p $dst; cp -r $sd/. $dst/; rm -rf $dst/out $dst/tmp* 2>/dev/null
     echo "stored in $dst"
   else echo "NOT CONFIRMED"; fi
   ;;
